@@ -14,7 +14,8 @@ DRIVERS = ["drv_alg"]
 DRIVER_EXE = "drv_alg"
 RULE = ("seeded expression trees (depth <= 3 quick, <= 5 thorough) over 9 quantity types of the default database, "
         "up to 5 scale-only units and up to 4 categories per type; EVERY inner node of every tree is a case "
-        "(operands = the real values of its two subtrees), in both operand orders, with * / // and ** (n in -1..4); "
+        "(operands = the real values of its two subtrees), in both operand orders, with * / // and ** (n in -1..4, and EVERY n in -2..16 on simple, product "
+        "and quotient operands with small values; ^ nodes of small leaves up to 7); "
         "plus streams: empty quantities, quantities written directly as dicts (two units of one type, zero "
         "exponents, zero totals), zero divisors, units with an affine offset inside products; "
         "distinct = distinct (op, operand quantities, exact values); non-trivial = the operation succeeded "
@@ -91,6 +92,20 @@ def _gen(ctx, salt, max_depth, per_level, n_raw, n_aff):
         u = rng.choice(pool)
         yield from _emit(ctx, "cancel", "/", ["*", t, u], u)
         yield from _emit(ctx, "same-dims-other-units", rng.choice(OPS), t, uni.variant(rng, t))
+    # 2b. every exponent -2..16 (0 and negative exponents return the operand itself, as the code defines them), on
+    # simple, product and quotient operands whose values keep the 16th power inside the float range
+    small = [1.5, -1.25, 0.75, 2.0, -0.5, 1.1, -1.75, 0.9]
+    for rep_ in range(3 if per_level < 500 else 12):
+        for n in range(-2, 17):
+            a = uni.leaf(rng)
+            a = ["L", float(rng.choice(small)).hex()] + a[2:]
+            b = uni.leaf(rng)
+            b = ["L", float(rng.choice(small)).hex()] + b[2:]
+            shape = (rep_ + n) % 3
+            t = a if shape == 0 else ([rng.choice("*/"), a, b] if shape == 1 else ["*", a, uni.variant(rng, a)])
+            if shape == 2:
+                t[2] = ["L", float(rng.choice(small)).hex()] + t[2][2:]
+            yield from _emit(ctx, "pow-n=%d" % n, "^", t, None, n)
     # 3. empty quantities and quantities written directly
     for _ in range(n_raw):
         t = rng.choice(pool)
